@@ -12,6 +12,9 @@ SNIPPETS = [
     # a statement that ends in a backslash continuation at the end of the file, in every newline style
     "x = 1 \\\n", "x = 1 \\\r", "x = 1 \\\r\n", "y = 0\rx = 1 \\\r", "def f():\r    return 1 + \\\r",
     "if x: \\\n", "x = [1,\n     2] \\\n\n",
+    # a class body with several attributes followed by several methods (and the same for a function)
+    "class C:\n    a = 1\n    b = 2\n    def f(self):\n        return 1\n    def g(self):\n        return 2\n",
+    "def outer(p):\n    a = 1\n    b = 2\n    def f():\n        return a\n    def g():\n        return b\n    return f, g\n",
     # ... or is followed by an empty / comment-only line
     "x = 1 \\\n\ny = 2\n", "x = 1 \\\n# c\ny = 2\n", "def f():\n    a = 1 \\\n\n    b = 2\nc = 3\n", "x = 1 \\\r\n\r\ny = 2\r\n",
     "import os\nimport sys\n\nx = os.path.join(sys.prefix, 'a')\n",
